@@ -357,7 +357,11 @@ fn c03(tier: &str) -> i32 {
         j.welcome_consent = if tier == "quick" { 1 } else { 2 };
         j.with_local_ops = false;
         if tier != "quick" {
-            jobs.push(j.clone().backend(lab::Bk::Sqlite));
+            // SQLite forks cost a row copy each: one consent mode and a smaller state cap there (caps are reported)
+            let mut js = j.clone().backend(lab::Bk::Sqlite);
+            js.welcome_consent = 1;
+            js.max_states = 4000;
+            jobs.push(js);
         }
         jobs.push(j);
     }
